@@ -244,6 +244,30 @@ def solve_obligation(ob: Obligation, rlimit, model_vars):
                 ob.model = {"_error": repr(exc)}
             break
         ob.reason = f"z3 unknown: {s.reason_unknown()}"
+    if verdict == "undecided" and ob.kind != "canary":
+        # quantifier-free relaxation: drop the quantified hypotheses.  unsat is still a proof (fewer hypotheses); a model
+        # is only a CANDIDATE counterexample (it may violate a dropped hypothesis) and counts only if the native replay
+        # of the real code confirms it
+        qf = [h for h in ob.hyps if not _has_quantifier(h)]
+        if len(qf) < len(ob.hyps):
+            s = _mk_solver(rlimit)
+            for h in qf:
+                s.add(h)
+            s.add(z3.Not(goal))
+            try:
+                r = s.check()
+            except z3.Z3Exception:  # pragma: no cover
+                r = z3.unknown
+            if r == z3.unsat:
+                verdict = "discharged"
+                ob.solver = "z3"
+            elif r == z3.sat:
+                try:
+                    ob.model = extract_model(s.model(), model_vars)
+                    verdict = "refuted"
+                    ob.solver = "z3 (candidate model of the quantifier-free relaxation; counts only if the replay confirms it)"
+                except Exception:  # pragma: no cover
+                    pass
     if verdict == "undecided":
         # (for the canary a model of the path condition found here shows non-vacuity; it needs no replay)
         for bound in (FM_BOUNDS if ob.kind != "canary" else FM_BOUNDS[:2] + (8,)):
@@ -254,7 +278,7 @@ def solve_obligation(ob: Obligation, rlimit, model_vars):
                 break
             if m is not None:
                 verdict = "refuted"
-                ob.solver = f"z3 (finite-model search, sequence lengths <= {bound})"
+                ob.solver = f"z3 (candidate model from the finite-model search, sequence lengths <= {bound}; counts only if the replay confirms it)"
                 ob.model = m
                 break
     ob.verdict = verdict
